@@ -186,7 +186,7 @@ def _attach_internal():
                   ('_checkOr', m._checkOr),
                   ('_checkAtomicProposition', m._checkAtomicProposition),
                   ('_checkStateFormula', orig_csf),
-                  ('modelcheck', mcwrap.original('CTL'))])
+                  ('CTL.modelcheck', mcwrap.original('CTL'))])
 
 
 def attach():
